@@ -16,7 +16,7 @@ T = {
     "C03": ("exploration", "exhaustive enumeration of ephemeral private keys (all 2-byte DH exponents in small groups, EC scalars 1..N) x hashes x agreements with entropy as a chosen environment answer",
             "Encrypt-side KEK, decrypt-side KEK and an independent implementation agree for every enumerated (hash, agreement, ephemeral key, peer key), including all leading-zero shared secrets/coordinates in the enumerated range.",
             "os.urandom is the library's entropy source for ephemeral keys (seam); pure-Python P-256/P-384 reference checked against cryptography.", "3/C03"),
-    "C04": ("fault_enumeration", "exhaustive single-bit-flip / truncation / deletion / insertion / header-byte substitution / flip-pair enumeration over valid blobs, real unprotect with offline keys",
+    "C04": ("fault_enumeration", "exhaustive single-bit-flip / truncation / deletion / insertion / header-byte substitution / flip-pair / secret-free forgery enumeration over valid blobs (up to 16 MiB), real unprotect with offline keys",
             "Every enumerated mutation of every base blob is decrypted by the real code; the outcome must be the original plaintext, an error, or an attempt to reach the network - never different bytes.",
             "Offline KeyCache holding the right root key; network seams raise.", "3/C04"),
     "C05": ("model_checking", "exhaustive mutation enumeration + all byte strings <=2 bytes under a deterministic interpreter-step and KDF-call budget (termination as safety)",
@@ -34,7 +34,7 @@ T = {
     "C09": ("exploration", "exhaustive enumeration of clock values around every kind of interval boundary (clock as environment seam) vs exact integer formula",
             "For every enumerated instant the blob names exactly the interval containing it and decrypts at that position with the reference decryptor.",
             "time.time_ns / time.time are the library's clock (seam).", "3/C09"),
-    "C10": ("model_checking", "explicit-state exploration of all API operation histories up to a depth over a shared KeyCache + all completion orders of concurrent async calls on a virtual event loop, against a reference DC",
+    "C10": ("model_checking", "explicit-state exploration of all API operation histories up to a depth over a shared KeyCache (incl. histories mixing API flavours and callers) + all completion orders of concurrent async calls on a virtual event loop, against a reference DC",
             "Every history/schedule in the bound is executed on the real code; results must equal fresh-cache results and covered calls must make zero GetKey RPCs (reference model: max covered position per triple).",
             "Reference DC with scripted security context; virtual asyncio loop owns scheduling; bounded depth/alphabet.", "3/C10"),
     "C11": ("exploration", "exhaustive field-boundary product enumeration per MS-GKDI structure / NDR64 stub vs independent encoder, both directions",
@@ -46,13 +46,13 @@ T = {
     "C13": ("model_checking", "exhaustive enumeration of stub length x VT x signature size x header signing x API through the real client over a scripted transport and recording security context",
             "For every configuration the bytes on the wire satisfy the frame arithmetic, the recording security context saw exactly [header|stub+pad|trailer|token], and an independent receiver recovers the stub; reply padding is stripped exactly.",
             "spnego.client seam (ScriptedContext) plus real NTLM runs; in-memory transport.", "3/C13"),
-    "C14": ("model_checking", "stateless exploration of all 1..3-chunk segmentations, all 2^15 header compositions and EOF at every offset over a scripted socket / real StreamReader on a virtual loop",
+    "C14": ("model_checking", "stateless exploration of all 1..3-chunk segmentations, all 2^15 header compositions, EOF at every offset and FIN with/behind the last segment over a scripted socket / real StreamReader on a virtual loop",
             "Every enumerated delivery schedule yields the same PDU as unsegmented delivery; every premature EOF yields an exception after at most 2 EOF reads within the step budget.",
             "FakeSocket/StreamReader seams model the kernel: a read returns 1..n available bytes, then EOF.", "3/C14"),
     "C15": ("model_checking", "deviation-bounded DFS over server reply scripts x scripted authentication providers on the real bind/request code; transcript invariants I1-I7 on every execution",
             "Every server script within the deviation bound is played against the real client with every provider shape; the token relay, stopping, context acceptance, header signing and fail-closed invariants are evaluated on each transcript.",
             "Scripted peer and provider cover the enumerated behaviours only.", "3/C15"),
-    "C16": ("fault_enumeration", "exhaustive tampering enumeration (trailer removal, every bit flip, length-field edits, replays) of replies sealed by a real NTLM context",
+    "C16": ("fault_enumeration", "exhaustive tampering enumeration (trailer removal, every bit flip, length-field edits, replays, forged trailers, rogue peers without the session key) of replies sealed by a real NTLM context and by a scripted context",
             "For every enumerated alteration of an authentic sealed reply the client must raise or hand back exactly the sealed plaintext; trailer-less replies must raise.",
             "pyspnego NTLM client+server in-process are the security context.", "3/C16"),
     "C17": ("model_checking", "exhaustive configuration product through the full client stack against an in-process reference DC (real NTLM and scripted context), sync and async on a virtual loop",
@@ -61,7 +61,7 @@ T = {
     "C18": ("model_checking", "exhaustive tower-list enumeration over all length residues + adversarial count substitutions/prefixes under step and allocation budgets",
             "Well-formed replies must yield the first TCP port through the whole stack; every enumerated adversarial reply must finish within step/allocation budgets proportional to its size.",
             "ref/epm.py NDR64 encoder calibrated on the captured ept_map reply.", "3/C18"),
-    "C19": ("model_checking", "explicit enumeration of all protect/unprotect histories up to a depth with entropy as a seam; pairwise-distinctness oracle on CEK, GCM nonce, key-id nonce",
+    "C19": ("model_checking", "explicit enumeration of all protect/unprotect histories up to a depth with entropy as a seam, of concurrent async calls, and of all schedules of two OS threads with a preemption bound under a controlled scheduler; pairwise-distinctness oracle on CEK, GCM nonce, key-id nonce",
             "In every history all CEKs, GCM nonces and key_infos recovered from the emitted blobs are pairwise distinct, under a never-repeating entropy source and under the real one.",
             "CEK recovered with the reference KEK; 2^-96 collision odds with real randomness.", "3/C19"),
     "C20": ("exploration", "exhaustive enumeration of every ordered SRV answer list of 1..5 records over 3x3 (priority, weight) with DNS as a scripted seam",
